@@ -273,10 +273,24 @@ def run(ctx):
                            v_leak=g.uniform(-1, 1, nn), v_threshold=g.uniform(0.2, 2, nn), w_in=g.uniform(-2, 2, nn))
         dt = float(10 ** rng.uniform(-4, -2))
         data = (g.random((T, nn)) < 0.4).astype(float) * g.uniform(0.5, 5)
-        res = cuba.run_cuba_reference_model(cuba.CubaLIFImplementation(dt, node), data)
+        model = cuba.CubaLIFImplementation(dt, node)
+        I0 = np.zeros(nn); v0 = np.zeros(nn)
+        if rng.random() < 0.5:
+            # the model has been used before (an earlier chunk of the input, or single forward() steps): a run goes on
+            # from the state it finds
+            warm = (g.random((rng.randrange(1, 6), nn)) < 0.5).astype(float) * g.uniform(0.5, 5)
+            if rng.random() < 0.5:
+                cuba.run_cuba_reference_model(model, warm)
+            else:
+                for row in warm:
+                    model.forward(row)
+            I0 = np.array(model.I, dtype=float, copy=True); v0 = np.array(model.v, dtype=float, copy=True)
+            ctx.count("cuba_reference_runs_from_used_model")
+        res = cuba.run_cuba_reference_model(model, data)
         for j in range(nn):
             c = {"op": "cuba_run", "args": [fhex(t) for t in (dt, node.tau_syn[j], node.tau_mem[j], node.r[j], node.v_leak[j],
                                                              node.v_threshold[j], node.w_in[j])],
+                 "I0": fhex(I0[j]), "v0": fhex(v0[j]),
                  "xs": [fhex(x) for x in data[:, j]]}
             cases.append(c); reqs.append(c)
             obs.append({"z": [fhex(x) for x in res["spikes"][:, j]], "v": [fhex(x) for x in res["voltages"][:, j]],
